@@ -42,12 +42,13 @@ class RunInfo:
         # Only called when a run is created; loading a `RunInfo` must not modify the folder
         if self.run_folder is None:
             return
-        self.dump()
         for input_name, value in self.inputs.items():
             input_path = _input_path(input_name, self.run_folder)
             dump(value, input_path)
         defaults_path = _defaults_path(self.run_folder)
         dump(self.defaults, defaults_path)
+        # `run_info.json` is written last, its existence implies that the files it refers to exist
+        self.dump()
 
     @classmethod
     def create(
